@@ -24,15 +24,19 @@ META = {
     'gen_deps': [],
     'eval_deps': [],
     'level_text': ("Theorems in Coq (Props/C13.v): sorting any two listings of the same (residue id, block) pairs gives the same list, "
-                   "hence the same molecule from add_blocks (C01), for every permutation of node keys and insertion order; folding "
-                   "writes with pairwise different keys in any order gives the same table (C02's last-writer table), so definitions "
-                   "that do not define the same interaction may come in any order. The implementation is tied to this by metamorphic "
-                   "pairs: every generated input is run as generated and relabelled / reordered through the real processors and the "
-                   "results (atoms, interaction multisets, edges) must coincide; from_itp fragments and .json graphs with arbitrary "
-                   "node keys go through the same comparison. History independence is a heap property of the process: it is checked "
-                   "by running sequences of gen_params calls in one process against the same calls in fresh processes (no theorem)."),
-    'level_note': ("Trusted: Coq kernel, harness. No axioms. Equivariance of VF2 matching under node relabelling is not proved; it is "
-                   "exercised by the metamorphic runs."),
+                   "hence the same molecule from add_blocks (C01), for every permutation of node keys and insertion order; link "
+                   "application is invariant under relabelling: for every bijective renaming of the node keys, any storage order of "
+                   "nodes and edges and any edge orientation, the model of ApplyLinks yields the same interaction table, attribute "
+                   "replacements and edges (the candidate assignments are a permutation of each other, matches are applied sorted by "
+                   "(residue id, order label), which is proved to be a strict total order on matches); folding writes with pairwise "
+                   "different keys in any order gives the same table, so definitions that do not define the same interaction may come "
+                   "in any order. The implementation is tied to this by metamorphic pairs: every generated input is run as generated "
+                   "and relabelled / reordered through the real processors and the results must coincide; from_itp fragments and "
+                   ".json graphs with arbitrary node keys go through the same comparison. History independence is a heap property of "
+                   "the process: it is checked by running sequences of gen_params calls (including an edit of the definitions file "
+                   "between two calls) in one process against the same calls in fresh processes (no theorem)."),
+    'level_note': ("Trusted: Coq kernel, harness. No axioms. That networkx' VF2 enumerates exactly the induced matches (the model's candidate set) is a "
+                   "library contract validated by C02's correspondence and the metamorphic runs."),
     'rule': ("cases = (force field, residue graph) pairs of the C01/C02 generators x one random relabelling and one random definition "
              "order each; from_itp chains of 2-3 copies of a 2-residue block x key permutations; .json graphs with shifted / shuffled "
              "ids; histories of 2-4 gen_params calls; non-trivial = graphs with >= 3 residues and at least one applied link; "
